@@ -16,7 +16,9 @@ Observations made while building (none contradicts the property as stated; see t
   O1  `_process_open/setstat/fsetstat/lsetstat` format the decoded attributes eagerly for a debug message
       (`hide_empty(attrs)` -> `time.ctime`), which raises OSError/OverflowError for a time beyond the platform's
       calendar (>= ~6.7e16 s): a well-formed request is then answered FX_FAILURE before any handle check or
-      application call.  Request attributes in the server runs keep times below 2^40; not modelled.
+      application call.  Repaired by a `fix:` commit after the model/code audit (unprintable times are shown as raw
+      seconds); oracle_big_times reports a tree without the repair, and the server runs use full 64-bit times when
+      the tree prints them (`L.TIME_BITS`).
   O2  trailing bytes after a complete body are rejected (FX_BAD_MESSAGE) below SFTPv6 by every handler except
       REALPATH, LINK, BLOCK and UNBLOCK, which ignore them in every version (model: `Tail.never`).
   O3  a reply body the client cannot parse reaches the caller as a bare `PacketDecodeError` (a `ValueError`), and a
@@ -71,8 +73,9 @@ TRUSTED = [
 ASSUMPTIONS = [
     'fewer than 2^32 requests are outstanding at once (request ids do not wrap onto a live id)',
     'the application-level SFTPServer raises only Exception subclasses (not BaseException such as CancelledError)',
-    'attribute times inside server requests are below the platform calendar limit of time.ctime (observation O1: '
-    'beyond it the debug-message formatting raises and the request is answered FX_FAILURE)',
+    'in a tree WITHOUT the repair of observation O1, attribute times inside the generated server requests stay below '
+    'the platform calendar limit of time.ctime (beyond it the debug-message formatting raises and the request is '
+    'answered FX_FAILURE: reported by oracle_big_times); with the repair they range over all 64 bits',
     'a packet shorter than 5 bytes (no type/id) cannot be answered and ends the session: this is outside '
     '"malformed body", which presupposes a request id',
 ]
@@ -1129,11 +1132,45 @@ def fix_stat_tags(sc: ClientScenario) -> ClientScenario:
 _SERVER_RECORDS: List[Dict[str, Any]] = []
 
 
+SIG_BIG_TIME = 'server-wellformed-request-not-dispatched:attrs-time-beyond-ctime-range'
+
+
+async def big_time_probe(rng: Any, v: int, t: int) -> Tuple[str, List[str]]:
+    """a well-formed SETSTAT whose attributes carry the time `t`: (observed reply, application calls)"""
+    sr = ServerRun(rng)
+    await sr.open_conn()
+    await sr.new_session(v)
+    body = String(b'/p') + S.SFTPAttrs(atime=t, mtime=t).encode(v)
+    rec = await sr.send(v, 9, L.request_packet(9, 77, body), L.Script(), body, 'big-time')
+    sr.conn.abort()
+    await pair.settle(10)
+    return rec['observed'], list(rec['calls'])
+
+
+def oracle_big_times(ctx: Ctx, res: OracleResult, hist: Hist, seen: set) -> None:
+    """Every well-formed request is handed to the application, whose result decides the reply (the model's
+    `handlerResult`): also when its attributes carry a time the platform's calendar functions cannot print (the server
+    formats the attributes of OPEN/SETSTAT/FSETSTAT/MKDIR for a debug message before handling the request)."""
+    rng = ctx.subrng('oracle-big-times')
+    for v in (4, 5, 6):
+        for t in (2 ** 33, 2 ** 56, 2 ** 60, 2 ** 63, 2 ** 64 - 1):
+            obs, calls = pair.run(big_time_probe(rng, v, t), timeout=60)
+            res.evaluations += 1
+            hist.hit('oracle-server:big-time:' + ('dispatched' if 'setstat' in calls else 'NOT-dispatched'))
+            if obs != 'reply 101 77 status 0' or 'setstat' not in calls:
+                add_failure(res, seen, SIG_BIG_TIME,
+                            f'v{v}: well-formed SETSTAT with atime=mtime={t} was answered "{obs}" and the application\'s '
+                            f'setstat() was {"" if "setstat" in calls else "NOT "}called: formatting the attributes for the '
+                            f'debug log (time.ctime) raised before the request was handled',
+                            {'kind': 'big-time', 'v': v, 't': t})
+
+
 def oracle(ctx: Ctx) -> OracleResult:
     res = OracleResult()
     hist = Hist()
     seen: set = set()
     oracle_codec(ctx, res, hist)
+    oracle_big_times(ctx, res, hist, seen)
     oracle_server(ctx, res, hist, seen, _SERVER_RECORDS)
     oracle_error_codes(ctx, res, hist, seen)
     oracle_client(ctx, res, hist, seen)
@@ -1222,6 +1259,11 @@ def replay(ctx: Ctx, rep: Dict[str, Any]) -> List[Failure]:
         obs = pair.run(go2(), timeout=60)
         if obs != f"reply 101 7 status {r['want']}":
             return [Failure('server-local-error-wrong-status', obs, r)]
+        return []
+    if kind == 'big-time':
+        obs, calls = pair.run(big_time_probe(ctx.subrng('replay'), int(r['v']), int(r['t'])), timeout=60)
+        if obs != 'reply 101 77 status 0' or 'setstat' not in calls:
+            return [Failure(SIG_BIG_TIME, f'answered {obs}, calls {calls}', r)]
         return []
     if kind == 'client':
         sc = ClientScenario.from_json(r['scenario'])
